@@ -71,7 +71,7 @@ func partition(c *mon.Ctx, m *ref.TSPacket) {
 	pf, ef := packet.Payload(&p)
 	pm, em := p.Payload()
 	if !m.HasPayload() {
-		if ef == nil || em == nil || pf != nil || pm != nil {
+		if ef == nil || em == nil || len(pf) != 0 || len(pm) != 0 { // an empty non-nil slice next to the error carries no bytes either
 			c.Fail("partition:payload-without-flag", fmt.Sprintf("a packet without the payload flag yielded payload bytes / no error (function: %d bytes, %v; method: %d bytes, %v)", len(pf), ef, len(pm), em), w(""))
 		}
 		c.Count("partition.no_payload_flag")
@@ -99,12 +99,20 @@ func partition(c *mon.Ctx, m *ref.TSPacket) {
 }
 
 var slot packet.Packet
+var arena [3 * 188]byte
 
 func setPayload(c *mon.Ctx, m *ref.TSPacket, n int, r *gen.Rand) {
 	raw := m.Bytes()
 	// every case is loaded into the same packet object, the way a muxer re-uses its packet buffers:
 	// what an earlier SetPayload learnt about the previous occupant must not matter
 	p := &slot
+	arenaOff := -1
+	if r.Chance(5) {
+		// ... or the packet is one of several in a larger receive buffer, at any position in it
+		arenaOff = r.Intn(2*188 + 1)
+		p = (*packet.Packet)(arena[arenaOff : arenaOff+188])
+		c.Count("setpayload.packet_inside_a_larger_buffer")
+	}
 	*p = packet.Packet(raw)
 	orig := *p
 	data := r.Bytes(n)
@@ -120,7 +128,16 @@ func setPayload(c *mon.Ctx, m *ref.TSPacket, n int, r *gen.Rand) {
 				a = 188 - len(v)
 			}
 		}
-		data = p[a : a+r.Intn(188-a+1)]
+		b := a + r.Intn(188-a+1)
+		data = p[a:b]
+		switch {
+		case r.Chance(4):
+			data = p[a:b:b] // a view that ends where its bytes end (no spare capacity behind it)
+			c.Count("setpayload.argument_is_a_view_without_spare_capacity")
+		case arenaOff >= 0 && r.Bool():
+			data = arena[arenaOff+a : arenaOff+b] // cut from the enclosing buffer: its capacity runs on behind the packet
+			c.Count("setpayload.argument_is_cut_from_the_enclosing_buffer")
+		}
 		n = len(data)
 		c.Count("setpayload.argument_is_a_view_into_the_packet")
 	}
@@ -386,6 +403,9 @@ func run(c *mon.Ctx) {
 	c.Rule("well-formed packets from a reference builder: payload only, adaptation field only (length 183), both (every adaptation_field_length 0..182) with random combinations of optional fields that fit (including exactly full fields); SetPayload lengths 0..200 with capacity-2..capacity+2 forced; creation helpers with all PIDs/counters sampled. distinct non-trivial = distinct (operation, AFC, adaptation_field_length class, optional-field flag set, relation of n to capacity)")
 	c.Assume("well-formed means ISO/IEC 13818-1: AFC=10 => adaptation_field_length 183, AFC=11 => 0..182, content within the length, 0xFF stuffing; SetAdaptationFieldControl is held only to the weak facts of DESIGN section 5.C02")
 	c.Floor("setpayload.argument_is_a_view_into_the_packet", 500)
+	c.Floor("setpayload.argument_is_a_view_without_spare_capacity", 60)
+	c.Floor("setpayload.argument_is_cut_from_the_enclosing_buffer", 20)
+	c.Floor("setpayload.packet_inside_a_larger_buffer", 1000)
 	c.Floor("setpayload.refused_af_only", 200)
 	c.Floor("setpayload.n_equal_capacity", 500)
 	c.Floor("setpayload.n_above_capacity", 500)
